@@ -1119,7 +1119,7 @@ func caseContend(res *results, name string, rng *rand.Rand) {
 	w := newWorld(res, name, "contend", rng.Uint64())
 	defer w.close()
 	a, b := w.addRealNode(), w.addRealNode()
-	mode := rng.Intn(2)
+	mode := int(name[len(name)-1]-'0') % 2 // even case numbers: peer set (SendTo), odd: direct (MultiConn.Send)
 	c, err := w.connect(a, b, connOpts{capacity: 4 << 20, modeA: mode, modeB: mode})
 	if err != nil {
 		res.count("cases_skipped_handshake", 1)
@@ -1163,6 +1163,40 @@ func caseContend(res *results, name string, rng *rand.Rand) {
 			w.register(r, wire) // the same bytes are handed over k times: the multiset counts them
 		}
 		prep[i] = p
+	}
+	// phase 1, full queue: the link is held back while one maximal packet is on the wire, the topic's send queue
+	// is filled to its capacity with small messages, and only then the multi-packet senders arrive: every one of
+	// their packets has to wait for a slot. Whoever waits there must hold the stream to itself until its message
+	// is queued completely.
+	if mode == modeDirect {
+		c.lk.setRateAB(int64(wireMax) / 2)
+		blocker := w.newRec(a.idx, b.idx, topics[1], 900, 0, chunk, path)
+		c.a.send(w, blocker, makePayload(chunk, blocker.ID, w.mask))
+		for i := 0; i < 1000; i++ {
+			r := w.newRec(a.idx, b.idx, topics[0], 901, i, 32, path)
+			c.a.send(w, r, makePayload(32, r.ID, w.mask))
+		}
+		var fwg sync.WaitGroup
+		nf := 6 + rng.Intn(5)
+		for i := 0; i < nf; i++ {
+			size := chunk + 1 + rng.Intn(64)
+			r := w.newRec(a.idx, b.idx, topics[0], 910+i, 0, size, path)
+			payload := makePayload(size, r.ID, w.mask)
+			w.register(r, payload)
+			fwg.Add(1)
+			go func() {
+				defer fwg.Done()
+				if c.a.mc.Send(topics[0], payload) {
+					r.ok.Store(1)
+				} else {
+					r.ok.Store(2)
+				}
+			}()
+		}
+		time.Sleep(150 * time.Millisecond) // lets the senders reach the full queue (pacing only)
+		c.lk.setRateAB(0)
+		fwg.Wait()
+		res.count("contend_full_queue_senders", int64(nf))
 	}
 	var wg sync.WaitGroup
 	start := make(chan struct{})
